@@ -19,6 +19,7 @@ type Region struct {
 	Kind     string // field cell elem mapdom mapval maplen global alloc iter ghost
 	ValSort  string
 	KeySort  string
+	StructTag int
 	versions int
 }
 
@@ -66,6 +67,15 @@ type Obligation struct {
 type BState struct {
 	heap Heap
 	pc   string
+	inv  map[string]string // package invariant name -> SMT text of the instance last known to hold on this path
+}
+
+func cloneInv(m map[string]string) map[string]string {
+	n := map[string]string{}
+	for k, v := range m {
+		n[k] = v
+	}
+	return n
 }
 
 type loopInfo struct {
@@ -76,6 +86,7 @@ type loopInfo struct {
 	entryHeap Heap
 	iterRegion string
 	decEntry string
+	headInv  map[string]string
 }
 
 type callRecord struct {
@@ -128,6 +139,7 @@ type Gen struct {
 	entryAlloc string
 	axioms    []*axiomText
 	usedGInv  bool
+	defers    []*ssa.Defer
 }
 
 func (g *Gen) fatalf(f string, a ...interface{}) {
@@ -210,7 +222,7 @@ func (g *Gen) fieldRegion(st types.Type, idx int) *Region {
 	key := "F." + structName(st) + "." + f.Name()
 	return g.region(key, func() *Region {
 		vs := sortOf(f.Type())
-		return &Region{Sym: "F_" + structName(st) + "_" + f.Name(), Sort: "(Array Int " + vs + ")", Kind: "field", ValSort: vs, KeySort: "Int"}
+		return &Region{Sym: "F_" + structName(st) + "_" + f.Name(), Sort: "(Array Int " + vs + ")", Kind: "field", ValSort: vs, KeySort: "Int", StructTag: g.eng.typeTag(st)}
 	})
 }
 
@@ -587,7 +599,7 @@ func (g *Gen) Generate() {
 	}
 	// entry state
 	g.entryHeap = Heap{}
-	st := &BState{heap: Heap{}, pc: "true"}
+	st := &BState{heap: Heap{}, pc: "true", inv: map[string]string{}}
 	g.entryAlloc = g.heapGet(st.heap, g.allocRegion())
 	var facts []string
 	for _, p := range fn.Params {
@@ -631,6 +643,7 @@ func (g *Gen) Generate() {
 			o.MustBeSat = true
 		}
 	}
+	g.assumePkgInvs(st, g.fn)
 	g.in[fn.Blocks[0]] = st
 	order := rpo(fn, g.backEdge)
 	for _, b := range order {
@@ -668,8 +681,15 @@ func (g *Gen) allProps() []string {
 // allocatedFact: pointers/maps/slices entering the function refer to allocated memory (or are nil).
 func (g *Gen) allocatedFact(h Heap, term string, t types.Type) []string {
 	al := g.heapGet(h, g.allocRegion())
-	switch t.Underlying().(type) {
-	case *types.Pointer, *types.Map:
+	switch u := t.Underlying().(type) {
+	case *types.Pointer:
+		out := []string{fmt.Sprintf("(>= %s 0)", term), fmt.Sprintf("(=> (not (= %s 0)) (select %s %s))", term, al, term)}
+		if isStruct(u.Elem()) {
+			// Go's type safety: a non-nil *T points to an object allocated as a T
+			out = append(out, fmt.Sprintf("(=> (not (= %s 0)) (= (rtype %s) %d))", term, term, g.eng.typeTag(u.Elem())))
+		}
+		return out
+	case *types.Map:
 		return []string{fmt.Sprintf("(>= %s 0)", term), fmt.Sprintf("(=> (not (= %s 0)) (select %s %s))", term, al, term)}
 	case *types.Slice:
 		return []string{fmt.Sprintf("(=> (not (= (s-arr %s) 0)) (select %s (s-arr %s)))", term, al, term)}
@@ -729,6 +749,7 @@ func (g *Gen) processBlock(b *ssa.BasicBlock) {
 		if len(edges) == 1 {
 			st.pc = edges[0].cond
 			st.heap = g.out[edges[0].p].heap.clone()
+			st.inv = cloneInv(g.out[edges[0].p].inv)
 			for _, in := range b.Instrs {
 				if phi, ok := in.(*ssa.Phi); ok {
 					phiEntry[phi] = g.val(phi.Edges[edges[0].pidx])
@@ -740,6 +761,15 @@ func (g *Gen) processBlock(b *ssa.BasicBlock) {
 				cs = append(cs, e.cond)
 			}
 			st.pc = g.namePC("(or " + strings.Join(cs, " ") + ")")
+			// join invariant knowledge: keep what all predecessors agree on
+			st.inv = cloneInv(g.out[edges[0].p].inv)
+			for _, e := range edges[1:] {
+				for k, v := range st.inv {
+					if g.out[e.p].inv[k] != v {
+						delete(st.inv, k)
+					}
+				}
+			}
 			// join heaps
 			st.heap = Heap{}
 			keys := map[string]bool{}
@@ -888,10 +918,18 @@ func (g *Gen) enterLoop(li *loopInfo, st *BState, phiEntry map[*ssa.Phi]string) 
 		}
 	}
 	_ = a
+	g.checkPkgInvs(st, "I.init", fmt.Sprintf("loop%d:pkginv:", li.ordinal), pos, "true")
 	// havoc
 	ws := g.loopWrites(li)
 	preHeap := st.heap.clone()
-	for _, k := range sortedKeys(ws) {
+	lkeys := sortedKeys(ws)
+	for i, k := range lkeys {
+		if k == "alloc" {
+			copy(lkeys[1:i+1], lkeys[:i])
+			lkeys[0] = "alloc"
+		}
+	}
+	for _, k := range lkeys {
 		r := g.regions[k]
 		if r == nil {
 			r = g.regionByKey(k)
@@ -907,7 +945,7 @@ func (g *Gen) enterLoop(li *loopInfo, st *BState, phiEntry map[*ssa.Phi]string) 
 		} else if !ws[k] && (r.Kind == "field" || r.Kind == "cell" || r.Kind == "elem" || r.Kind == "mapdom" || r.Kind == "mapval" || r.Kind == "maplen") {
 			// written only on objects allocated inside the loop: everything allocated before keeps its value
 			al := g.heapGet(preHeap, g.allocRegion())
-			g.assume(st, fmt.Sprintf("(forall ((r Int)) (! (=> (select %s r) (= (select %s r) (select %s r))) :pattern ((select %s r))))", al, n, old, n))
+			g.assume(st, fmt.Sprintf("(forall ((r Int)) (! (=> (or (select %s r) %s) (= (select %s r) (select %s r))) :pattern ((select %s r))))", al, g.notFreshOf(r, st.heap), n, old, n))
 		}
 	}
 	phiVals := map[*ssa.Phi]string{}
@@ -925,6 +963,8 @@ func (g *Gen) enterLoop(li *loopInfo, st *BState, phiEntry map[*ssa.Phi]string) 
 	if len(facts) > 0 {
 		g.assume(st, "(and "+strings.Join(facts, " ")+")")
 	}
+	g.assumePkgInvs(st, g.fn)
+	li.headInv = cloneInv(st.inv)
 	if li.spec != nil {
 		env := g.loopEnv(li, st.heap, phiVals)
 		for _, inv := range li.spec.Invariants {
@@ -965,13 +1005,21 @@ func (g *Gen) clauseProps(c *Clause, def []string) []string {
 
 func (g *Gen) backEdgeObls(b, h *ssa.BasicBlock, st *BState) {
 	li := g.loops[h]
-	if li == nil || li.spec == nil {
+	if li == nil {
 		return
 	}
 	cond := g.edgeCond(b, h)
-	est := &BState{heap: st.heap, pc: st.pc}
+	est := &BState{heap: st.heap, pc: st.pc, inv: cloneInv(st.inv)}
 	if cond != "true" {
 		est.pc = g.namePC(fmt.Sprintf("(and %s %s)", st.pc, cond))
+	}
+	{
+		_, pos := g.anchorForLoop(li)
+		// the loop head assumed the invariant instance over the havocked heap; the back edge must re-establish it
+		g.checkPkgInvsAgainst(est, "I.pres", fmt.Sprintf("loop%d:pkginv:", li.ordinal), pos, "true", li.headInv)
+	}
+	if li.spec == nil {
+		return
 	}
 	pidx := -1
 	for i, p := range h.Preds {
